@@ -13,7 +13,7 @@ Extensions over translate.py (everything else is identical):
   * a branch that returns on SOME path is never joined: `if c: A else: B; REST` becomes `if c: A; REST else: B; REST`
     (translate.py would bind the returned value as the joined variable); statements of the skip table bind nothing;
     any internal error is turned into TranslateError("translation of <function> no longer matches: ...");
-  * tuple displays; `d['k'] = e` through cfg["setitem"]; after `if x is None: x = v` the name x is a value (not an option);
+  * cfg["exn_subst"]: exceptions outside the fixed list, named by the table; tuple displays; `d['k'] = e` through cfg["setitem"]; after `if x is None: x = v` the name x is a value (not an option);
   * on the sentinel side of such a test X has type "sentinel" and `X.default_value` translates
     to cfg["sentinel_default"]; `.default_value` of anything else is rejected.
 
@@ -461,6 +461,9 @@ class Tr:
 
     def exn_name(self, s):
         e = s.exc
+        if ast.unparse(e) in self.cfg.get("exn_subst", {}):
+            # (extension) an exception the table names, e.g. FallbackToBackend(SequentialBackend(...)) -> OtherError 1
+            return self.cfg["exn_subst"][ast.unparse(e)]
         if isinstance(e, ast.Call):
             e = e.func
         if isinstance(e, ast.Name) and e.id in EXN:
